@@ -135,6 +135,7 @@ def schemas():
                            Q('Existential', x, P(H2, x, ca))),
         'ord-nec-poss': ([L(a), M(b), L(O('MaterialConditional', a, c)), M(Neg(c))], M(O('Conjunction', a, b))),
         'ord-nec-nec': ([L(L(a)), M(M(b))], M(M(O('Conjunction', a, b)))),
+        'ord-mono-modal': ([L(a), M(b), M(c)], O('Conjunction', M(O('Conjunction', a, b)), M(O('Conjunction', a, c)))),
     }
     return {k: {'prems': v[0], 'conc': v[1]} for k, v in out.items()}
 
